@@ -44,7 +44,7 @@ RULE = ('Hypothesis: FileSpec (1-5 dims of length 1-6, <=1 unlimited, 1-5 '
         '(data/dims only) and netcdf.open_mfdataset / pncmfopen(stackdim=d) '
         'on pieces saved as netCDF (R8b handle discipline) under file names '
         'whose lexical order usually differs from the argument order '
-        '(unpadded numbers part_8..part_12, permuted letters); a quarter of '
+        '(unpadded numbers part_8..part_12, permuted letters); a sixth of '
         'those cases split a compact file into 10-12 pieces of length 1.  Non-trivial: >=3 inputs, or d is '
         'not the leading axis of some variable, or a masked or coordinate '
         'variable lies on d.  Distinct by sha1 of the case spec.')
@@ -79,12 +79,12 @@ def cases(draw, tier='quick'):
     if tier == 'thorough':
         entry = draw(st.sampled_from(['method', 'method', 'stack_files',
                                       'mfdataset', 'pncmfopen']))
-    elif draw(st.integers(0, 19)) >= 17:
+    elif draw(st.integers(0, 19)) >= 15:
         # quick: a modest share through the functional form and the
         # multi-file openers on netCDF pieces written to scratch
         entry = draw(st.sampled_from(['pncmfopen', 'mfdataset', 'pncmfopen',
                                       'stack_files']))
-    if entry != 'method' and draw(st.integers(0, 3)) == 0:
+    if entry != 'method' and draw(st.integers(0, 5)) == 0:
         # many small pieces (10-12 of length 1) of a compact file
         small = draw(S.filespecs(max_len=3, max_dims=3, max_vars=3,
                                  attrs=True, masked=True, char=False,
@@ -184,7 +184,8 @@ def run_stack(r, case, files, d):
                       lambda: f.save(p, format='NETCDF4_CLASSIC', verbose=0))
         if not ok:
             return False, None
-        libstate.release(o)
+        # R8b: close, drop the reference, collect - before the next open
+        o.close()
         del o
         gc.collect()
         paths.append(p)
@@ -274,7 +275,7 @@ def check_case(case):
         if disk:
             from .. import libstate
             if out is not None:
-                libstate.release(out)
+                out.close()
             del out
             gc.collect()
             if case.get('_cdir'):
